@@ -598,7 +598,11 @@ func (t *TNC) applyLine(text string, rec *Emission) {
 		idx := c.ID - 1
 		if len(t.plan.Session) > 0 {
 			sess := t.plan.Session[idx%len(t.plan.Session)]
-			rec.onDelivered = append(rec.onDelivered, func() { t.startScript("session", sess, c, c.Remote) })
+			if t.plan.EarlyData && t.mode == "tcp" {
+				t.sim.At(0, func() { t.startScript("session", sess, c, c.Remote) })
+			} else {
+				rec.onDelivered = append(rec.onDelivered, func() { t.startScript("session", sess, c, c.Remote) })
+			}
 		}
 		t.startDrain()
 	}
